@@ -557,6 +557,39 @@ func ZZC09Broker() {
 		}
 		S2.hangup()
 	}
+	if sessMaybe && !transient {
+		// the crash cut a CONNECT that was starting a new session for S.  Whatever is
+		// left of the old one, S connects again (Clean Start 0); if the broker gives it a
+		// fresh session (Session Present 0) that session starts empty and stays empty:
+		// nothing of the discarded one may come back, not even after another restart
+		S2 := &zz9Cli{id: S.id, v5: S.v5}
+		ack := S2.connect(srv2, false, E)
+		zzrt.Assert(ack != nil && ack.Code == codes.Success, "subscriber-reconnects")
+		if !ack.SessionPresent {
+			S2.drain()
+			zzrt.Assert(len(S2.wire) == 0, "fresh-session-receives-nothing-old")
+			S2.hangup()
+			P2.hangup()
+			for _, c := range zz9All {
+				_ = c
+			}
+			st3 := st2.Survivor()
+			srv3, err := zz9Boot(st3)
+			zzrt.Assert(err == nil, "second-restart-succeeds")
+			S3 := &zz9Cli{id: S.id, v5: S.v5}
+			ack3 := S3.connect(srv3, false, E)
+			zzrt.Assert(ack3 != nil && ack3.Code == codes.Success && ack3.SessionPresent, "fresh-session-survives-the-next-restart")
+			got := subscription.GetClientSubscriptions(srv3.subscriptionsDB, S.id, subscription.TypeAll)
+			zzrt.Observe("ghosts", len(got))
+			zzrt.Assert(len(got) == 0, "fresh-session-has-no-subscriptions-after-the-next-restart")
+			S3.drain()
+			zzrt.Assert(len(S3.wire) == 0, "fresh-session-receives-nothing-old-after-the-next-restart")
+			S3.hangup()
+			zzrt.Cover("fresh-after-cut-connect")
+			return
+		}
+		S2.hangup()
+	}
 	P2.hangup()
 	_ = gmqtt.Message{}
 }
